@@ -65,6 +65,46 @@ func main() {
 			e.Strs("sortedDocsReturns", last, "writeSortedDocs: the successful return statement")
 		}
 
+		// fracmanager/loader.go: start-up clean-up for a fraction that has .sdocs and .index (leftovers of Active.Release)
+		if f, err := r.Load("fracmanager/loader.go"); err != nil {
+			e.Missing("loaderSealedCleanup", err)
+		} else if fd := f.Func("loader", "load"); fd == nil {
+			e.Missing("loaderSealedCleanup", "loader.load not found")
+		} else {
+			var steps []string
+			found := false
+			ast.Inspect(fd.Body, func(n ast.Node) bool {
+				x, ok := n.(*ast.IfStmt)
+				if !ok || f.Render(x.Cond) != "info.hasSdocs && info.hasIndex" {
+					return true
+				}
+				found = true
+				for _, st := range x.Body.List { // direct children only: nesting is part of the fact
+					if is, ok := st.(*ast.IfStmt); ok {
+						for _, c := range f.Calls(is.Body) {
+							if c == "removeFile" {
+								var args []string
+								ast.Inspect(is.Body, func(m ast.Node) bool {
+									if ce, ok := m.(*ast.CallExpr); ok && f.Render(ce.Fun) == "removeFile" && len(ce.Args) == 1 {
+										args = append(args, f.Render(ce.Args[0]))
+									}
+									return true
+								})
+								steps = append(steps, "if "+f.Render(is.Cond)+" remove "+strings.Join(args, ", "))
+								break
+							}
+						}
+					}
+				}
+				return false
+			})
+			if !found {
+				e.Missing("loaderSealedCleanup", "branch `info.hasSdocs && info.hasIndex` not found")
+			} else {
+				e.Strs("loaderSealedCleanup", steps, "loader.load, branch hasSdocs && hasIndex: top-level removals of leftovers")
+			}
+		}
+
 		// sealed_loader.go: shape of the section loops (probe until the empty separator header)
 		if f, err := r.Load("frac/sealed_loader.go"); err != nil {
 			e.Missing("loaderLoops", err)
